@@ -34,7 +34,7 @@ RULE = ("input modules with 1..5 generated classes / functions / SQLAlchemy clas
         "--prepend/--imports-from-file x output absent/present; a case = one invocation; distinct by content digest; "
         "non-trivial = the command wrote a module (or refused an existing one)")
 REQUIRED_MONITORS = ("gen.run", "output.compiled", "symbols.checked", "symbol.reparsed", "existing-output.refused",
-                     "imports.resolved")
+                     "imports.resolved", "directory-input.run")
 ASSUMPTIONS = ["configurations that raise before writing anything (e.g. --emit function, --emit pydantic, --parse "
                "argparse on this tree) are listed in evidence as rejected; the non-clobbering and confinement clauses "
                "are still checked for them",
@@ -59,11 +59,30 @@ def gen_inputs(r, pk):
     if pk == "json_schema":
         irs = irs[:1]
         return json.dumps(hops.emit(irs[0], "json_schema")[0], indent=1), irs, "in.json"
-    head = {"class": "from typing import Optional, Literal\n", "function": "from typing import Optional, Literal\n",
-            "sqlalchemy": "from sqlalchemy import Column, Integer, String, Float, Boolean, Enum, Identity\n",
-            "pydantic": "from typing import Optional, Literal\nfrom pydantic import BaseModel\n"}[pk]
     body = "\n\n\n".join(hops.emit(ir, pk)[1] for ir in irs)
-    return head + "\n\n" + body + "\n", irs, "in.py"
+    return HEADS[pk] + "\n\n" + body + "\n", irs, "in.py"
+
+
+HEADS = {"class": "from typing import Optional, Literal\n", "function": "from typing import Optional, Literal\n",
+         "sqlalchemy": "from sqlalchemy import Column, Integer, String, Float, Boolean, Enum, Identity\n",
+         "pydantic": "from typing import Optional, Literal\nfrom pydantic import BaseModel\n"}
+
+
+def split_into_directory(r, irs, pk, mixed):
+    """the same entries as a directory of modules (1..3 files); with `mixed` (only under --parse infer) every file
+    holds classes or functions of its own choosing -> ({file name: text}, [kind of each entry])"""
+    n_files = r.randint(1, min(3, len(irs)))
+    buckets = [[] for _ in range(n_files)]
+    for i, ir in enumerate(irs):
+        buckets[i % n_files if i < n_files else r.randrange(n_files)].append(i)
+    kinds, files = [pk] * len(irs), {}
+    for k, idxs in enumerate(buckets):
+        fk = r.choice(("class", "function")) if mixed else pk
+        for i in idxs:
+            kinds[i] = fk
+        files["m%d_%s.py" % (k, r.choice(("models", "funcs", "conf")))] = HEADS[fk] + "\n\n" + "\n\n\n".join(
+            hops.emit(irs[i], fk)[1] for i in idxs) + "\n"
+    return files, kinds
 
 
 def free_names(tree):
@@ -125,10 +144,24 @@ def run_case(ctx, P, stream, idx):
     existing = r.random() < 0.2
     src, irs, in_name = gen_inputs(r, pk)
     out_name = "out.json" if ek == "json_schema" else "out.py"
+    # the input mapping may also be a directory of modules
+    as_dir = pk != "json_schema" and r.random() < 0.25
+    kinds = [pk] * len(irs)
+    dir_files = None
+    if as_dir:
+        dir_files, kinds = split_into_directory(r, irs, pk, mixed=parse_arg == "infer" and pk in ("class", "function")
+                                                and r.random() < 0.6)
+        in_name, src = "indir", "\n".join("# ---- %s\n%s" % kv for kv in sorted(dir_files.items()))
     d = tempfile.mkdtemp(prefix="vcdd-c19-")
     try:
-        with open(os.path.join(d, in_name), "w") as f:
-            f.write(src)
+        if as_dir:
+            os.mkdir(os.path.join(d, in_name))
+            for fn, text in dir_files.items():
+                with open(os.path.join(d, in_name, fn), "w") as f:
+                    f.write(text)
+        else:
+            with open(os.path.join(d, in_name), "w") as f:
+                f.write(src)
         argv = [sys.executable, "-m", "cdd", "gen", "--name-tpl", tpl, "--input-mapping", in_name, "--parse", parse_arg,
                 "--emit", ek, "-o", out_name]
         if infer_imports:
@@ -153,9 +186,12 @@ def run_case(ctx, P, stream, idx):
     finally:
         shutil.rmtree(d, ignore_errors=True)
     cfg = {"parse": parse_arg, "input_kind": pk, "emit": ek, "name_tpl": tpl, "infer_imports": infer_imports,
-           "prepend": with_prepend, "existing_output": existing, "n": len(irs)}
-    feats = "parse=%s,emit=%s,tpl=%s,imports=%s,prepend=%s" % (pk if parse_arg != "infer" else pk + "/infer", ek,
-                                                                TEMPLATES.index(tpl), infer_imports, with_prepend)
+           "prepend": with_prepend, "existing_output": existing, "n": len(irs),
+           "input_mapping": "directory(%d files%s)" % (len(dir_files), ", mixed kinds" if len(set(kinds)) > 1 else "")
+           if as_dir else "file"}
+    feats = "parse=%s,emit=%s,tpl=%s,imports=%s,prepend=%s%s" % (pk if parse_arg != "infer" else pk + "/infer", ek,
+                                                                  TEMPLATES.index(tpl), infer_imports, with_prepend,
+                                                                  ",dir" if as_dir else "")
     w = {"stream": stream, "idx": idx, "config": cfg, "input": src, "output": out_src, "stderr": pr.stderr.decode()[-500:]}
     err_last = (pr.stderr.decode().strip().splitlines() or [""])[-1]
 
@@ -163,6 +199,8 @@ def run_case(ctx, P, stream, idx):
         P.deviation((mech + "|" if mech else "") + "gen.%s|%s" % (kind, feats), what, dict(w, **extra))
 
     wrote = pr.returncode == 0 and out_src is not None
+    if as_dir:
+        P.monitor("directory-input.run")
     P.case({"src": src, "cfg": cfg}, nontrivial=wrote or existing, klass="%s->%s" % (pk, ek),
            sample={"config": cfg, "input_head": src[:300]})
     touched = [p for p in fsnap.changed_paths(diff) if p not in (out_name, "./")]
@@ -239,6 +277,7 @@ def run_case(ctx, P, stream, idx):
         if not cand or nm == "__all__":
             continue
         ir = cand[0]
+        pk_ir = kinds[irs.index(ir)]
         try:
             got = hops.parse(ast.unparse(node), emit_fmt)
             P.monitor("symbol.reparsed")
@@ -248,7 +287,7 @@ def run_case(ctx, P, stream, idx):
             continue
         # expected interface: the source entry as read by the matching parser, through one hop of the emit format
         try:
-            base = hops.parse(hops.emit(ir, pk)[1], pk) if pk != "json_schema" else hops.hop(ir, "json_schema")[1]
+            base = hops.parse(hops.emit(ir, pk_ir)[1], pk_ir) if pk != "json_schema" else hops.hop(ir, "json_schema")[1]
             exp = hops.hop(dict(base, name=ir["name"]), emit_fmt)[1]
         except Exception as e:
             P.count("expectation.unavailable")
